@@ -65,10 +65,14 @@ func (w *Worker) harnessIntrinsic(fn *ssa.Function) intrinsic {
 	if in, ok := harnessIntrinsics[fn.Name()]; ok {
 		return in
 	}
+	if in, ok := harnessIntrinsicsExtra[fn.Name()]; ok {
+		return in
+	}
 	return nil
 }
 
 var harnessIntrinsics map[string]intrinsic
+var harnessIntrinsicsExtra = map[string]intrinsic{}
 
 func nondetInt(width int) intrinsic {
 	return func(w *Worker, _ *frame, _ *ssa.Function, a []Value) Value {
